@@ -6,6 +6,10 @@ Run = a history: a seeded sequence of 2..6 operations executed in ONE forked chi
   GEN!/RENDER!(..., crash_at=k)                the same with an injected crash at line event k
   CLI(argv)                                    in-process CLI run with --datetime / --disable-str-serializable-types
                                                (perturbs the process-global default string-type registry)
+  CLIJ(spec)                                   a JUDGED in-process CLI command; the CLIJ commands of a history share one
+                                               directory (same paths, files rewritten in between) and their options
+  GEN with sreg_id / gen_id                    the caller re-uses one StringSerializableRegistry (types removed in
+                                               between) / one MetadataGenerator and comparator list for several GENs
 Oracle = for every non-crashing GEN/RENDER of the history, the same call in a PRISTINE fork after only its dependency
 chain (the GEN of its slot).  Byte equality of outcomes.
 """
